@@ -101,7 +101,11 @@ Definition py_str (x : xval) : res pv :=
   end.
 
 Definition py_bool (x : xval) : res pv :=
-  match x with XV (VErr _) => Stuck | _ => Ok (pv_of_x (cast_bool x)) end.
+  match x with
+  | XV (VErr _) => Stuck
+  | XV VNull => Ok (PBool false)            (* bool(None); StrFuncs.cast_bool is BQL's NULL-strict bool() *)
+  | _ => Ok (pv_of_x (cast_bool x))
+  end.
 
 (* ------------------------------------------------------------------ str.format, the fragment
    '{}' and '{:[0]<width>d}' with positional arguments in order *)
